@@ -13,7 +13,7 @@ var expectedRules = map[string][]string{
 	"C05": {"entry-points", "in-bounds", "loops-terminate", "field-facts", "layers-consume-input", "chunk-loop"},
 	"C06": {"request-layouts", "message-layout", "session-header-layout", "operation-table", "command-bindings", "build-literals", "fresh-layers", "open-session-payload-order", "username-guard", "username-encoding"},
 	"C07": {"response-layouts", "decoders-overwrite", "id-string-header", "accepts-minimal-encoding", "checksums-verified", "wrappers-in-bounds", "v1-length-honoured"},
-	"C08": {"mutual-inverse", "buffer-views", "aes-pad-convention", "aes-pad-arithmetic", "decode-overwrites-everything"},
+	"C08": {"mutual-inverse", "buffer-views", "decoder-accepts-serialised", "decoded-pad-consistent", "aes-pad-convention", "aes-pad-arithmetic", "decode-overwrites-everything"},
 	"C09": {"counter-writers", "inc-before-send", "sequence-is-incremented-counter", "inc-implies-send", "sessionless-null-wrapper"},
 	"C10": {"temporary-codes", "closure-exits", "temporary-tested", "terminal-error-returned", "backoff-policy-default", "reset-before-retry", "code-from-message-layer", "fresh-layers"},
 	"C11": {"reply-matches-request", "one-write-one-read"},
